@@ -25,6 +25,6 @@ def genTables : Tables :=
     exeVarTypeOptional := Gen.exeVarTypeOptional,
     opFallbackAnyName := Gen.opFallbackAnyName,
     fieldPosAfterLookahead := Gen.fieldPosAfterLookahead,
-    leafErrNulls := Gen.leafErrNulls }
+    leafErrNulls := Gen.leafErrNulls, fastSliceCopies := Gen.fastSliceCopies }
 
 def main (args : List String) : IO Unit := run genTables args
